@@ -45,7 +45,7 @@ CANON = {
          "ops": [["submit", 1], ["submit", 2], ["result", 2], ["shutdown", False, False]]},
     ],
     "dep": [
-        {"mode": "dep-block", "max_workers": 1, "calls": [dict(_OK), {"raises": False, "deps": [1]}, {"raises": False, "deps": [1, 2]}],
+        {"mode": "dep-block", "max_workers": 1, "calls": [dict(_OK), {"raises": False, "deps": [1]}, {"raises": False, "deps": [1, 2], "nest": 2}],
          "ops": [["submit", 1], ["submit", 2], ["submit", 3], ["result", 3], ["shutdown", True, False]]},
         {"mode": "dep-step", "max_cores": 2, "calls": [{"raises": False, "res": {}}, {"raises": False, "deps": [1], "res": {}}],
          "ops": [["submit", 1], ["submit", 2], ["cancel", 2], ["shutdown", True, False]]},
